@@ -73,16 +73,49 @@ def check_exceptions(idx: Index, rep: Report) -> None:
             if isinstance(n, ast.Raise) and n.exc is not None:
                 raised.add(dotted(n.exc).split(".")[-1])
     f = idx.func(CFI, "ConstantFoldInterpPattern.match_and_rewrite")
-    tries = [n for n in walk_local(f.node) if isinstance(n, ast.Try) and any(call_attr(c) == "run_op" for c in calls_in(n))]
-    if len(tries) != 1:
-        raise AnalysisError(f"{f.fq}: try around interpreter.run_op not found")
-    caught = set()
-    for h in tries[0].handlers:
-        if h.type is None:
-            caught.add("Exception")
-        else:
-            for t in (h.type.elts if isinstance(h.type, ast.Tuple) else [h.type]):
-                caught.add(dotted(t).split(".")[-1])
+    from ..astutil import parent_map
+
+    def handlers_around(fn_node: ast.AST, node: ast.AST) -> list[set[str]]:
+        """exception names caught by each try statement whose body encloses `node` (innermost first)"""
+        pm = parent_map(fn_node)
+        out = []
+        n_ = node
+        while id(n_) in pm:
+            par = pm[id(n_)]
+            if isinstance(par, ast.Try) and any(n_ is b_ or any(n_ is x for x in ast.walk(b_)) for b_ in par.body):
+                names = set()
+                for h in par.handlers:
+                    if h.type is None:
+                        names.add("Exception")
+                    else:
+                        for t in (h.type.elts if isinstance(h.type, ast.Tuple) else [h.type]):
+                            names.add(dotted(t).split(".")[-1])
+                out.append(names)
+            n_ = par
+        return out
+
+    cls14 = f.cls
+    sites = []  # (function info, call)
+    for nm, defs in (cls14.methods.items() if cls14 is not None else []):
+        for d in defs:
+            for c in calls_in(d.raw_node):
+                if call_attr(c) == "run_op":
+                    sites.append((d, c))
+    if not sites:
+        raise AnalysisError(f"{f.fq}: no interpreter.run_op call found in ConstantFoldInterpPattern")
+    caught = None
+    for d, c in sites:
+        hs = handlers_around(d.raw_node, c)
+        if not hs and d.name != "match_and_rewrite" and cls14 is not None:
+            # a helper: every call of it must be inside a try
+            for nm2, defs2 in cls14.methods.items():
+                for d2 in defs2:
+                    for c2 in calls_in(d2.raw_node):
+                        if call_attr(c2) == d.name:
+                            hs = hs or handlers_around(d2.raw_node, c2)
+        cs = set().union(*hs) if hs else set()
+        caught = cs if caught is None else caught & cs
+    caught = caught or set()
     missing = sorted(x for x in raised if x not in caught and "Exception" not in caught and "BaseException" not in caught)
     if missing:
         r.fail(f.fq + ":caught", Finding("C14.R2", f.fq, "uncaught:" + ",".join(missing), f"the implementations run by the pattern can raise {sorted(raised)} (bare `assert rhs != 0`, `assert rhs >= 0`, …) but the pattern only catches {sorted(caught)}: e.g. divsi by a constant 0 makes the pass fail instead of leaving the op", f.loc))
